@@ -2696,6 +2696,9 @@ class AsyncIOBackend(AsyncBackend):
                 task = cast(asyncio.Task, current_task())
                 _task_states[task] = TaskState(None, scope)
                 scope._tasks.add(task)
+                # The scope may have been cancelled already, with nothing left to cancel
+                # (the host task waits behind a shield), so make sure this task is seen
+                CancelScope._restart_cancellation(scope)
             try:
                 return await func(*args)
             except CancelledError as exc:
